@@ -144,6 +144,10 @@ def run(ctx):
     if f:
         rs = ctx.ret_values(f)
         ctx.ob("C14.G.path-key", f.key, "Ok(path.clone())", len(rs) == 1 and re.match(r"^core::result::Result::Ok\{.*clone\(a1\)\}$", rs[0]) is not None, "%s" % rs)
+    # value errors are "located under their key": the key is prepended by Error::at_path -> Error::at,
+    # and bundles hand their path down (rules shared with C04)
+    from .C04 import location_rules
+    location_rules(ctx, "C14.loc")
     return ctx.finish(
         explanation="Guard/pairing rules on the %d map instantiations and their closures; callee-sequence agreement between them; KeyFromPath impls." % len(seqs),
         assumptions=["HashSet/HashMap/BTreeMap behave as documented", "map size and content are value-level"],
